@@ -883,7 +883,7 @@ class Filter(base.Filter):
             assert token_type in ("StartTag", "EmptyTag")
             attrs = []
             for (ns, name), v in token["data"].items():
-                attrs.append(' %s="%s"' % (name if ns is None else "%s:%s" % (prefixes[ns], name), escape(v)))
+                attrs.append(' %s="%s"' % (name if ns is None else "%s:%s" % (prefixes.get(ns, ns), name), escape(v)))
             token["data"] = "<%s%s>" % (token["name"], ''.join(attrs))
         else:
             token["data"] = "<%s>" % token["name"]
